@@ -2,6 +2,7 @@ package kernel
 
 import (
 	"fmt"
+	"github.com/MixinNetwork/mixin/kernel/internal/clock"
 	"math/big"
 	"strings"
 	"sync"
@@ -63,8 +64,8 @@ func TestVerif_C16(t *testing.T) {
 	remaining := func(asset crypto.Hash) *big.Int {
 		_, bal, _ := f.node.persistStore.ReadAssetWithBalance(asset)
 		rem := new(big.Int).Sub(vC16Capacity(asset), verifgen.UnitsOf(bal))
-		if asset == common.XINAssetId { // the pledge funded at the end needs room
-			rem.Sub(rem, verifgen.UnitsOf(common.KernelNodePledgeAmount.Mul(2)))
+		if asset == common.XINAssetId { // the pledges funded at the end need room
+			rem.Sub(rem, verifgen.UnitsOf(common.KernelNodePledgeAmount.Mul(3)))
 		}
 		if rem.Sign() < 0 {
 			rem.SetInt64(0)
@@ -142,6 +143,9 @@ func TestVerif_C16(t *testing.T) {
 		case 9:
 			shape, k = "fresh-asset-different-chain-data", 2
 		}
+		if round == rounds-10 {
+			shape, k = "exactly-the-capacity-together", 2
+		}
 		// regularly: a withdrawal submission stays pending on one chain while another chain's snapshot claims it
 		claimShape := round%8 == 6
 		if claimShape && k < 2 {
@@ -166,6 +170,9 @@ func TestVerif_C16(t *testing.T) {
 			a := assets[1+rng.Intn(2)] // BTC or ETH
 			if shape == "half-capacity-each" {
 				a = assets[1]
+			}
+			if shape == "exactly-the-capacity-together" { // an asset with a capacity that nothing else in this run deposits
+				a = verifgen.AssetInfo{Id: common.SOLAssetId, Chain: common.SOLAssetId, Key: "11111111111111111111111111111111"}
 			}
 			if shape == "fresh-asset-different-chain-data" || shape == "" && rng.Intn(6) == 0 { // a fresh asset whose pending first deposits disagree on chain data
 				unknownCount++
@@ -227,6 +234,12 @@ func TestVerif_C16(t *testing.T) {
 							units = new(big.Int).Div(rem, big.NewInt(2))
 						}
 						units.Add(units, big.NewInt(1))
+						if shape == "exactly-the-capacity-together" { // two pending deposits that fill the asset to the last unit
+							units = new(big.Int).Div(rem, big.NewInt(2))
+							if len(pend) > 0 {
+								units = new(big.Int).Sub(rem, units)
+							}
+						}
 						fa := *forced
 						kind = "deposit-same-asset"
 						if conflictInfo {
@@ -417,6 +430,11 @@ func TestVerif_C16(t *testing.T) {
 						}
 					} else {
 						class = "pending-deposits-of-one-asset-exceed-capacity-together"
+						// ... unless this deposit still fits what is finalized by now: then nothing was exceeded
+						_, balNow, _ := f.node.persistStore.ReadAssetWithBalance(p.deposit.asset)
+						if new(big.Int).Add(verifgen.UnitsOf(balNow), p.deposit.units).Cmp(vC16Capacity(p.deposit.asset)) <= 0 {
+							class = "deposit-that-still-fits-the-capacity"
+						}
 					}
 				}
 				r.Violation("C16|"+site+"|"+class,
@@ -585,6 +603,60 @@ func TestVerif_C16(t *testing.T) {
 			if err := f.restart(); err != nil {
 				t.Fatalf("restart after failed finalization: %v", err)
 			}
+		}
+	}()
+	// 5. a node pledge stamped a little ahead of this replica's clock (its proposer's clock runs 20 s fast, well inside
+	// what the announcement path tolerates): validated and finalized while the local clock is still behind it
+	func() {
+		chainId, ptx, ts, _, err := f.buildPledge(w)
+		if err != nil {
+			r.Count("pledge_ahead_of_the_clock_not_buildable", 1)
+			t.Logf("pledge ahead of the clock: %v", err)
+			return
+		}
+		snap, err := f.nextSnapshot(chainId, []crypto.Hash{ptx.PayloadHash()}, ts)
+		if err != nil {
+			r.Count("pledge_ahead_of_the_clock_not_buildable", 1)
+			t.Logf("pledge ahead of the clock: snapshot: %v", err)
+			return
+		}
+		_ = f.node.persistStore.CacheStoreTransaction(ptx)
+		clock.MockDiff(-time.Since(time.Unix(0, int64(ts))) - 20*time.Second)
+		defer clock.Reset()
+		var verr error
+		var missing []crypto.Hash
+		panicked, _, _ := verifkit.Guard(func() { _, missing, verr = f.node.validateSnapshotTransaction(snap, false) })
+		r.Eval()
+		if panicked || verr != nil || len(missing) > 0 {
+			r.Count("pledge_ahead_of_the_clock_rejected_by_validation", 1)
+			t.Logf("pledge ahead of the clock rejected: %v", verr)
+			return
+		}
+		if _, err := f.sign(snap, 0); err != nil {
+			r.Count("sign_errors", 1)
+			return
+		}
+		r.Count("pledge_ahead_of_the_clock_validated", 1)
+		delivered++
+		r.Nontrivial(snap.Hash.String())
+		d := f.deliver(snap, []*common.VersionedTransaction{ptx})
+		if d.Panicked || d.Err != nil {
+			site, msg := "error", fmt.Sprint(d.Err)
+			if d.Panicked {
+				site, msg = verifkit.PanicSite(d.Stack), fmt.Sprint(d.PanicVal)
+			}
+			r.Violation("C16|"+site+"|consensus-operation-stamped-ahead-of-the-local-clock",
+				fmt.Sprintf("a node pledge stamped 20 s ahead of the local clock passed the node's validation and its finalization failed (%s): %s", site, msg),
+				map[string]any{"site": site, "message": msg, "timestamp": ts})
+			clock.Reset()
+			if err := f.restart(); err != nil {
+				t.Fatalf("restart after failed finalization: %v", err)
+			}
+			return
+		}
+		if d.Finalized {
+			finalizedCount++
+			r.Count("pledge_ahead_of_the_clock_finalized", 1)
 		}
 	}()
 	r.Note("snapshots_delivered", delivered)
